@@ -18,10 +18,14 @@
    (start_request_stream / start_response_stream), before the request / response hook; after that hook only the end
    of the message is left (SendHttp(RequestEndOfMessage) / flow_done); send_response looks at the kill marker,
    state_stream_request_body does not.
+   An http message may arrive without a body (kind "nobody": head only, END_STREAM on the HEADERS frame) and an
+   edit of a held message may give it a body or take it away: what is forwarded is decided after the hook from
+   the flow's current request / response (raw_content, done_after_headers), not from what arrived.
    User actions (resume, kill, edit) do not run the event loop; Run does (waiters wake up in the order of resume()). *)
 EXTENDS Mon_Intercept, TLC
 CONSTANTS Cfg,        \* per protocol to explore: [n |-> messages, flows |-> flows, user |-> user actions per behaviour,
-                      \*   str |-> the messages that may be streamed (http: the addon sets .stream in the *headers hook)]
+                      \*   str |-> the messages that may be streamed (http: the addon sets .stream in the *headers hook),
+                      \*   nobody |-> the (http) messages that may arrive without a body]
           Decisions,
           StreamReqKillCheck   \* FALSE copies the code: state_stream_request_body has no check_killed after the request
                                \* hook, the end of a streamed request is sent on although the flow was killed (C11-F3)
@@ -52,7 +56,7 @@ IsReq(n) == n % 2 = 1
 HasHead == proto \in {"http1", "http2"}
 
 Init == /\ proto \in Protos
-        /\ ms = [n \in Msgs |-> [st |-> "none", to |-> "s", dec |-> "pass", cur |-> n, str |-> FALSE]]
+        /\ ms = [n \in Msgs |-> [st |-> "none", to |-> "s", dec |-> "pass", cur |-> n, str |-> FALSE, body |-> TRUE]]
         /\ fl = [f \in Flows |-> [ic |-> FALSE, kd |-> FALSE, live |-> TRUE, known |-> FALSE]]
         /\ busy = 0 /\ q = <<>> /\ relq = <<>> /\ fwd = {} /\ closed = FALSE /\ sconn = FALSE /\ nuser = 0
         /\ mon = MonStep(MonInit, [k |-> "cfg", proto |-> proto]) /\ obs = <<>>
@@ -74,9 +78,11 @@ FlushSeq(w, s, wdone) ==
   ELSE IF wdone THEN FlushSeq(w, Tail(s), TRUE)
   ELSE LET ws == SelectSeq(s, LAMBDA x : x.t = "w")
            ids == [i \in DOMAIN ws |-> w.ms[ws[i].n].cur]
+           wsb == SelectSeq(ws, LAMBDA x : w.ms[x.n].body)
+           bds == [i \in DOMAIN wsb |-> w.ms[wsb[i].n].cur]
            fin == IF proto = "http2" THEN [i \in DOMAIN ws |-> ws[i].n] ELSE <<>>
        IN FlushSeq([w EXCEPT !.sconn = TRUE,
-                             !.out = Append(@, [k |-> "write", to |-> "s", hd |-> ids, bd |-> ids, fin |-> fin])],
+                             !.out = Append(@, [k |-> "write", to |-> "s", hd |-> ids, bd |-> bds, fin |-> fin])],
                    Tail(s), TRUE)
 Flush(w) == [FlushSeq(w, w.defer, FALSE) EXCEPT !.defer = <<>>]
 Commit(w0) == LET w == Flush(w0) IN
@@ -92,7 +98,8 @@ Forward(w, n) ==
   [w EXCEPT !.fwd = @ \cup {n},
             !.fl[f].live = IF HasHead /\ ~IsReq(n) THEN FALSE ELSE @,     \* HttpStream.flow_done
             !.out = Append(@, [k |-> "write", to |-> w.ms[n].to, hd |-> IF HasHead THEN <<id>> ELSE <<>>,
-                                                     bd |-> <<id>>, fin |-> IF proto = "http2" THEN <<n>> ELSE <<>>])]
+                                                     bd |-> IF w.ms[n].body THEN <<id>> ELSE <<>>,
+                                                     fin |-> IF proto = "http2" THEN <<n>> ELSE <<>>])]
 \* a streamed message arrives: head and body go on at once (the connect, if needed, completes within the step)
 StreamOn(w, n) ==
   [w EXCEPT !.sconn = IF IsReq(n) THEN TRUE ELSE @,
@@ -142,16 +149,19 @@ CanArrive(n) ==
                            /\ (proto = "http1" => \A k \in 1..(n - 1) : k \in fwd)
           ELSE (n - 1) \in fwd
 
-Arrive(n, to, d, str) ==
+\* kind: "buf" (buffered, with body), "str" (streamed, with body), "nobody" (head only)
+Arrive(n, to, d, kind) ==
   /\ Live /\ n \in Msgs /\ CanArrive(n) /\ (Paired => to = (IF IsReq(n) THEN "s" ELSE "c"))
-  /\ (str => HasHead /\ n \in Cfg[proto].str)
+  /\ (kind = "str" => HasHead /\ n \in Cfg[proto].str)
+  /\ (kind = "nobody" => HasHead /\ n \in Cfg[proto].nobody)
   /\ LET f == FlowOfN(n)
-         w0 == [W0([k |-> "arrive", n |-> n, f |-> f, to |-> to, str |-> str]) EXCEPT
-                   !.ms[n].to = to, !.ms[n].dec = d, !.ms[n].str = str]
+         str == kind = "str"
+         w0 == [W0([k |-> "arrive", n |-> n, f |-> f, to |-> to, str |-> str, body |-> kind # "nobody"]) EXCEPT
+                   !.ms[n].to = to, !.ms[n].dec = d, !.ms[n].str = str, !.ms[n].body = kind # "nobody"]
      IN IF Serial /\ busy # 0 THEN Commit([w0 EXCEPT !.ms[n].st = "queued", !.q = Append(@, n)])
         ELSE IF HasHead /\ ~IsReq(n) /\ fl[f].kd
           THEN Commit(Abort([w0 EXCEPT !.ms[n].st = "done"], n))     \* check_killed after responseheaders
-        ELSE IF str THEN Commit(Fire(StreamOn(w0, n), n))
+        ELSE IF kind = "str" THEN Commit(Fire(StreamOn(w0, n), n))
         ELSE Commit(Fire(w0, n))
   /\ UNCHANGED <<proto, relq, nuser>>
 
@@ -172,11 +182,13 @@ Kill(f) ==
      /\ fl' = IF kb THEN [fl EXCEPT ![f].kd = TRUE, ![f].ic = FALSE, ![f].live = FALSE] ELSE fl
   /\ UNCHANGED <<proto, ms, busy, q, relq, fwd, closed, sconn>>
 
-EditMsg(f) ==
-  /\ Live /\ f \in Flows /\ nuser < MaxUser /\ nuser' = nuser + 1
+\* the user edits the held message of flow f; b: it has a body afterwards (only http messages can lose / gain one)
+EditMsg(f, b) ==
+  /\ Live /\ f \in Flows /\ nuser < MaxUser /\ nuser' = nuser + 1 /\ (~b => HasHead)
   /\ \E n \in Msgs : /\ FlowOfN(n) = f /\ ms[n].st \in {"waiting", "rel"} /\ ms[n].cur = n /\ ~ms[n].str
-                     /\ ms' = [ms EXCEPT ![n].cur = n + EditOff]
-                     /\ Emit(<<[k |-> "edit", n |-> n, f |-> f, id |-> n + EditOff]>>)
+                     /\ (b # ms[n].body => n \in Cfg[proto].nobody)
+                     /\ ms' = [ms EXCEPT ![n].cur = n + EditOff, ![n].body = b]
+                     /\ Emit(<<[k |-> "edit", n |-> n, f |-> f, id |-> n + EditOff, body |-> b]>>)
   /\ UNCHANGED <<proto, fl, busy, q, relq, fwd, closed, sconn>>
 
 RECURSIVE RunAll(_, _)
@@ -186,10 +198,10 @@ Run ==
   /\ Commit(RunAll(W0([k |-> "run"]), relq))
   /\ UNCHANGED <<proto, nuser>>
 
-Next == \/ \E n \in AllMsgs, to \in {"s", "c"}, d \in Decisions, str \in BOOLEAN : Arrive(n, to, d, str)
+Next == \/ \E n \in AllMsgs, to \in {"s", "c"}, d \in Decisions, kind \in {"buf", "str", "nobody"} : Arrive(n, to, d, kind)
         \/ \E f \in AllFlows : Resume(f)
         \/ \E f \in AllFlows : Kill(f)
-        \/ \E f \in AllFlows : EditMsg(f)
+        \/ \E f \in AllFlows, b \in BOOLEAN : EditMsg(f, b)
         \/ Run
 Spec == Init /\ [][Next]_vars
 Report == mon.bad # <<>> => PrintT(<<"BAD", mon.bad>>)
